@@ -63,11 +63,11 @@ Apply(b, p, op) ==
     [] op.name = "cred_entry_oor" -> Err(b, "oob")
     [] op.name = "check" ->                                      \* check_status_with_status_list_2021
          IF op.mode = "SkipAll" THEN OkV(b, "valid")
-         ELSE IF op.ep # p THEN Err(b, "mismatch")
+         ELSE IF op.ep # p THEN Err(b, "invalid_status")       \* purposes differ: neither valid nor revoked / suspended
          ELSE OkV(b, StatusOf(p, b[op.i]))
     [] op.name = "check_oor" ->
          IF op.mode = "SkipAll" THEN OkV(b, "valid")
-         ELSE IF op.ep # p THEN Err(b, "mismatch") ELSE Err(b, "oob")
+         ELSE Err(b, "invalid_status")                          \* wrong purpose and / or index outside the list
 
 W == [i : UpdIdx, v : BOOLEAN]
 Ops == [name : {"set", "cred_set"}, i : Idx, v : BOOLEAN]
